@@ -341,6 +341,11 @@ int main(int argc, char** argv)
                 else if(!strcmp(op,"perturb")){ kv_set_perturb((unsigned)atoi(tok[1])); }
                 else if(!strcmp(op,"quiet")){ quiet = atoi(tok[1]); }
                 else if(!strcmp(op,"reset")){ emit("Reset",NULL); }
+                else if(!strcmp(op,"group") && nt >= 4){
+                        struct sb b; sb_init(&b);
+                        sb_kstr(&b,"gid",tok[1]); sb_kstr(&b,"rel",tok[2]); sb_kstr(&b,"prop",tok[3]);
+                        emit("Group",&b);
+                }
                 else if(!strcmp(op,"note")){ struct sb b; sb_init(&b); sb_kstr(&b,"text",copy+5); emit("Note",&b); }
                 else if(!strcmp(op,"read")){
                         int h = atoi(tok[1]);
